@@ -50,7 +50,27 @@ def unrepresentable_schedule(case, detail, m):
             and all(x[1] > 1e300 for x in impl["unrepresentable_schedules"]))
 
 
-PREDICATES = {"c03w_unrepresentable_schedule": unrepresentable_schedule}
+def parking_gap(case, detail, m):
+    """known-finding predicate (S58): a clustered problem of the writer stage in which the ONLY failing oracle entry is the timing split
+    and every tour that fails it is short by a positive amount of at most the parking time per parking stop (the writer parks on
+    arrival and then waits, the core waits and then parks: min(parking, time until the window opens) per cluster is accounted
+    nowhere)"""
+    impl = case.get("impl") or {}
+    if case.get("k") != "wcluster" or not isinstance(impl, dict) or "panic" in impl:
+        return False
+    if not isinstance(detail, str) or "timing_entries_with_commuting_and_parking_add_up_to_the_duration" not in detail:
+        return False
+    if "one_tour_per_route" in detail.split("[")[0]:
+        return False
+    try:
+        import ast
+        bad = ast.literal_eval(detail[detail.index("["):])
+    except Exception:
+        return False
+    return bool(bad) and all(b["parking_time"] > 0 and 0 < b["gap"] <= b["parking_time"] * b["parking_stops"] for b in bad)
+
+
+PREDICATES = {"c03w_unrepresentable_schedule": unrepresentable_schedule, "c03w_parking_gap": parking_gap}
 
 
 def w_nontrivial(case, verdict):
